@@ -175,3 +175,32 @@ func NTLMType3(o Type3Opts) []byte {
 }
 
 func B64(b []byte) string { return base64.StdEncoding.EncodeToString(b) }
+
+// NTLMAuthFunc returns a connection authenticator that performs the NTLM
+// type-1/type-2 exchange on the connection and yields the type-3 header.
+func NTLMAuthFunc(scheme, user, password, domain string) func(hc *HConn, method string) (Hdr, error) {
+	return func(hc *HConn, method string) (Hdr, error) {
+		r, err := hc.Do(method, GatewayPath, Hdr{{"Authorization", scheme + " " + B64(NTLMType1())}}, nil, 10e9)
+		if err != nil {
+			return nil, err
+		}
+		if r.Status != 401 {
+			return nil, fmt.Errorf("NTLM negotiate answered with status %d", r.Status)
+		}
+		var ch *NTLMChallenge
+		for _, v := range r.Header.Values("Www-Authenticate") {
+			if strings.HasPrefix(v, scheme+" ") {
+				raw, derr := base64.StdEncoding.DecodeString(strings.TrimPrefix(v, scheme+" "))
+				if derr == nil {
+					ch, err = ParseNTLMType2(raw)
+				}
+			}
+		}
+		if ch == nil {
+			return nil, fmt.Errorf("no NTLM challenge in the 401 response (%v)", err)
+		}
+		t3 := NTLMType3(Type3Opts{User: user, Domain: domain, Password: password, Workstation: "WS", ServerChallenge: ch.ServerChallenge,
+			TargetInfo: ch.TargetInfo, FlipProofBit: -1, FlipBlobBit: -1})
+		return Hdr{{"Authorization", scheme + " " + B64(t3)}}, nil
+	}
+}
